@@ -560,6 +560,21 @@ def subsecond_family(W):
     return res
 
 
+def tamper_family(W):
+    """A Redis session record that is damaged or was written by another version of the service (no creation time, a creation time in
+    another format): whatever the store makes of it, no crash, no OK the service cannot justify, no session beyond its limits."""
+    res = []
+    long = {"mode": "honest", "rt": True, "expiresIn": 100000, "idLife": 100000}
+    for how in ("dropCreated", "epochCreated", "garbageCreated"):
+        for (a, i) in ((0, 0), (300, 100)):
+            app_ = {"op": "check", "b": "b1", "f": "f1", "kind": "app", "cookie": "sid:1", "url": 1, "ans": long}
+            steps = [{"op": "browse", "b": "b1", "f": "f1", "url": 1, "ans": long}, {"op": "tick", "d": 10}, dict(app_),
+                     {"op": "tamper", "cookie": "sid:1", "how": how}, dict(app_), {"op": "tick", "d": 90}, dict(app_), {"op": "tick", "d": 90}, dict(app_),
+                     {"op": "tick", "d": 90}, dict(app_), {"op": "tick", "d": 90}, dict(app_), {"op": "check", "b": "b1", "f": "f1", "kind": "logout", "cookie": "sid:1"}]
+            res.append({"id": "tamper/%s/a%d-i%d" % (how, a, i), "cfg": {"filters": [dict(F1, store="redis", abs=a, idle=i)]}, "steps": steps, "tags": ["tamper"]})
+    return res
+
+
 def hammer_family(W):
     """Requests carrying one session cookie hammered truly in parallel (applications requests and logouts on a pending / an
     authenticated session), with a clock that is slow to read now and then."""
@@ -1036,7 +1051,7 @@ def c15(W, replay=None):
     W.build()
     scen = []
     if not replay:
-        scen = family(W, "C15") + discovery_family(W) + after_deny_family(W) + hammer_family(W) + env_std(W) + debug_family(W) + family(W, "C04", "quick")
+        scen = family(W, "C15") + discovery_family(W) + after_deny_family(W) + hammer_family(W) + env_std(W) + debug_family(W) + family(W, "C04", "quick") + tamper_family(W)
         if W.tier == "thorough":
             scen += random_histories(W, 500, faults=True)
     return sys_pipeline("C15", W, scen, None, ["a panic is recovered by the harness around ExtAuthZFilter.Check and logged as an event no action of the specification accepts as well-formed"],
@@ -1255,7 +1270,7 @@ def c10(W, replay=None):
     traces = len(scen)
     if not replay:
         # system level: through the real factory wiring (PreRun) and ExtAuthZFilter.Check with the virtual clock
-        sys_sc = timeout_system_scenarios(W)
+        sys_sc = timeout_system_scenarios(W) + tamper_family(W)
         index.update({s["id"]: s for s in sys_sc})
         tr2 = W.drive("TestSys", sys_sc, "sys")
         vs.append(W.validate(tr2, "sys"))
